@@ -8,8 +8,14 @@ deploy calls that may fail. Part B (`SFV/Props/C26Chain.lean`, model `SFV/Model/
 namespace SFV.C26
 open SFV SFV.Deploy
 
-/-- the manager and `FutureConnector` as they are in the source now (no repair applied) -/
-def codeCfg : Cfg := ⟨false, false⟩
+/-- the manager and `FutureConnector` BEFORE the repairs e95b534 (`undeploy` sets the event it cleared) and 3778dfe
+    (`FutureConnector.undeploy` waits for a deploy in progress): used only by the regression guards below -/
+def oldCfg : Cfg := ⟨false, false⟩
+/-- the manager and `FutureConnector` as they are in the source now -/
+def codeCfg : Cfg := ⟨true, true⟩
+
+/-- T tie: the source has both repairs (reverting e95b534 or 3778dfe makes this fail to build) -/
+theorem gen_cfg_is_repaired : Gen.deployCfg = codeCfg := rfl
 
 /-- the configuration read from the source is one of the variants of the model (trivially: every variant is) and the
     two models read the same `undeploy` -/
@@ -67,15 +73,21 @@ theorem lazy_waiters_fail_if_failed {cfg : Cfg} (s : St) (p q f o : Nat) (hp : s
 def kindsA : Nat → Option Kind
   | 1 => some .deploy | 2 => some .undeploy | 3 => some .deploy | 4 => some .deploy | _ => none
 
-/-- **FALSE of the code as it is** (`deploy_returns_after_live`): an `undeploy(D)` in flight, a re-`deploy(D)` that
-    registers a *new* event, the undeploy finishing with `self.events_map[D].set()` — which now sets the new event —
-    and a third `deploy(D)` that finds the event set: it returns while the new connector's `deploy()` is still running.
-    Four requests over one eager deployment. -/
-theorem deploy_returns_after_live_false :
-    ∃ s, Reachable codeCfg false kindsA s ∧ s.pc 4 = .done ∧ s.depmap = some (.eager 1) ∧ (s.objs 1).dep = .deploying := by
+/-- **regression guard — false before fix e95b534** (about the OLD `undeploy`, `oldCfg`): an `undeploy(D)` in flight, a
+    re-`deploy(D)` that registers a *new* event, the undeploy finishing with `self.events_map[D].set()` — which then set the
+    new event — and a third `deploy(D)` that found the event set: it returned while the new connector's `deploy()` was still
+    running. Four requests over one eager deployment. -/
+theorem deploy_returns_after_live_false_before_e95b534 :
+    ∃ s, Reachable oldCfg false kindsA s ∧ s.pc 4 = .done ∧ s.depmap = some (.eager 1) ∧ (s.objs 1).dep = .deploying := by
   refine ⟨_, reachable_runActs Reachable.init [.start 1, .connOk 1, .start 2, .start 3, .connOk 2, .start 4] rfl, ?_, ?_, ?_⟩ <;> decide
 
-/-- with the repaired `undeploy` (it sets the event object it cleared) the same schedule makes request 4 wait -/
+/-- **after the fix** (the code as it is): on the same schedule request 4 waits on the new event until the new connector's
+    `deploy()` completes, and then returns for a deployed connector -/
+theorem deploy_returns_after_live_fixed_schedule :
+    ∃ s, Reachable codeCfg false kindsA s ∧ s.pc 4 = .dWait 1 ∧
+      (∃ s', runActs codeCfg s [.connOk 3, .wake 4] = some s' ∧ s'.pc 4 = .done ∧ (s'.objs 1).dep = .ok) := by
+  refine ⟨_, reachable_runActs Reachable.init [.start 1, .connOk 1, .start 2, .start 3, .connOk 2, .start 4] rfl, by decide, _, rfl, by decide, by decide⟩
+
 example : ∃ s, Reachable ⟨true, false⟩ false kindsA s ∧ s.pc 4 = .dWait 1 := by
   refine ⟨_, reachable_runActs Reachable.init [.start 1, .connOk 1, .start 2, .start 3, .connOk 2, .start 4] rfl, ?_⟩; decide
 
@@ -95,7 +107,7 @@ theorem deploy_returns_after_live_partial {cfg : Cfg} (s s' : St) (p o : Nat) (h
     concurrently: any number of concurrent `deploy(D)` / use requests of an eager deployment, every interleaving, any
     failing `deploy()`: whenever a deploy request reaches `done` — at its start (it finds the event set), when woken from
     the event wait, or when its own connector call completes — the connector registered in `deployments_map` has finished
-    `deploy()` successfully. (`deploy_returns_after_live_false` shows the hypothesis is needed for the code as it is.) -/
+    `deploy()` successfully. (Without the hypothesis the statement was false before e95b534 — `deploy_returns_after_live_false_before_e95b534` — and is still false for SIX concurrent requests after it: two undeploy requests woken by the same event, the stale one undeploys the re-deployed connector; outside the property's bound of four requests, see design notes. Hence the `_no_undeploy` form stays the proved one.) -/
 theorem deploy_returns_after_live_no_undeploy {cfg : Cfg} {kinds s} (hk : ∀ p, kinds p ≠ some .undeploy)
     (h : Reachable cfg false kinds s) (a : Act) (s' : St) (hs : step cfg s a = some s') (p : Nat)
     (ha : (a = .start p ∧ s.pc p = .idle .deploy) ∨ (a = .wake p ∧ s.pc p = .dWoken) ∨ (a = .connOk p ∧ ∃ o, s.pc p = .dConn o))
@@ -228,23 +240,27 @@ theorem failed_deploy_then_undeploy_hangs_false :
 def kindsB : Nat → Option Kind
   | 1 => some .deploy | 2 => some .use | 3 => some .undeploy | _ => none
 
-/-- **FALSE of the code as it is** (`undeploy_all_exactly_once`, lazy): a first use has started the real deploy,
-    `undeploy(D)` runs `FutureConnector.undeploy` while `_connector is None` (a no-op) and drops the FutureConnector,
-    then the deploy completes: a live connector that no later `undeploy` / `undeploy_all` can reach. -/
-theorem lazy_connector_leaked_false :
-    ∃ s, Reachable codeCfg true kindsB s ∧ (s.objs 0).live = true ∧ s.depmap = none ∧ s.config = false ∧
+/-- **regression guard — false before fix 3778dfe** (about the OLD `FutureConnector.undeploy`, `oldCfg`): a first use has
+    started the real deploy, `undeploy(D)` ran `FutureConnector.undeploy` while `_connector is None` (a no-op) and dropped the
+    FutureConnector, then the deploy completed: a live connector that no later `undeploy` / `undeploy_all` could reach. -/
+theorem lazy_connector_leaked_false_before_3778dfe :
+    ∃ s, Reachable oldCfg true kindsB s ∧ (s.objs 0).live = true ∧ s.depmap = none ∧ s.config = false ∧
       s.pc 1 = .done ∧ s.pc 2 = .done ∧ s.pc 3 = .done := by
   refine ⟨_, reachable_runActs Reachable.init [.start 1, .start 2, .start 3, .connOk 2] rfl, ?_, ?_, ?_, ?_, ?_, ?_⟩ <;> decide
 
-/-- with the repaired `FutureConnector.undeploy` (wait for the deploy in flight) the undeploy request waits and then
+/-- **after the fix** (the code as it is): on the same schedule the undeploy request waits for the deploy in flight and then
     undeploys the connector -/
+theorem lazy_connector_undeployed_fixed_schedule :
+    ∃ s, Reachable codeCfg true kindsB s ∧ (s.objs 0).und = .done ∧ s.pc 3 = .done ∧ s.depmap = none := by
+  refine ⟨_, reachable_runActs Reachable.init [.start 1, .start 2, .start 3, .connOk 2, .wake 3, .connOk 3] rfl, ?_, ?_, ?_⟩ <;> decide
+
 example : ∃ s, Reachable ⟨false, true⟩ true kindsB s ∧ (s.objs 0).und = .done ∧ s.pc 3 = .done := by
   refine ⟨_, reachable_runActs Reachable.init [.start 1, .start 2, .start 3, .connOk 2, .wake 3, .connOk 3] rfl, ?_, ?_⟩ <;> decide
 
 /-! ### non-vacuity -/
 
 /-- three racing eager deploys, one undeploy, a re-deploy: a run in which objects 0 and 1 are created in turn -/
-example : ∃ s, Reachable codeCfg false kindsA s ∧ (s.objs 0).und = .done ∧ (s.objs 1).live = true ∧ s.pc 3 = .done := by
+example : ∃ s, Reachable oldCfg false kindsA s ∧ (s.objs 0).und = .done ∧ (s.objs 1).live = true ∧ s.pc 3 = .done := by
   refine ⟨_, reachable_runActs Reachable.init
     [.start 1, .start 3, .connOk 1, .wake 3, .start 2, .connOk 2, .start 4, .connOk 4] rfl, ?_, ?_, ?_⟩ <;> decide
 
